@@ -19,7 +19,7 @@ CHECKS = {
  "C19": ("obs", "exploration", "Integer-counter model: after every single operation of clone/subscribe/subscriber-clone/downgrade/upgrade/weak-clone/into_shared/drop histories all four counts of every live handle are compared, for both lock flavours; exhaustive d<=6 (quick) / d<=7 (thorough), random beyond.", "runtime monitoring: invariant (counts == model) at every quiescent point", "5/C19"),
  "C20": ("all", "exploration", "Instrumented element type (construction/clone/drop table keyed by instance id) under bulk random histories of the vector, adapter and observable engines: no double drop, no use after drop, nothing alive at the end. Because a double drop that is real UB cannot be trusted to show in an in-process table, the verdict also needs the sanitizer passes: Miri (tree borrows, leak check) over small shards in the quick tier, more Miri plus an ASan/LSan build of the bulk run in the thorough tier.", "runtime monitoring: drop-accounting monitor + Miri + AddressSanitizer/LeakSanitizer", "5/C20"),
  "C05": ("vec", "exploration", "Runtime monitor: every history is executed on the real ObservableVector; a reference batched subscriber polled after every mutating call gives the message boundaries, every other subscriber's items are compared with the undelivered messages and replayed through a checked replica. Exhaustive for short sequences over all mutators/indices, seeded random beyond. Held-on-what-was-observed, not a proof.", "runtime monitoring: history + executable reference model (replica replay)", "5/C05"),
- "C06": ("vec", "exploration", "Runtime monitor with an undelivered-message counter per subscriber: Reset only beyond capacity, Reset carries the current contents, replica == contents at every Pending, every diff applicable, each batched item brings the replica up to date; capacities 1,2,3,5,6,16,1000; exhaustive over a 7-step alphabet for capacities 1-3. A run that delivered no Reset is INCONCLUSIVE.", "runtime monitoring: history + reference model with lag accounting", "5/C06"),
+ "C06": ("vec+thr", "exploration", "Runtime monitor with an undelivered-message counter per subscriber: Reset only beyond capacity, Reset carries the current contents, replica == contents at every Pending, every diff applicable, each batched item brings the replica up to date; capacities 1,2,3,5,6,16,1000; exhaustive over a 7-step alphabet for capacities 1-3. A run that delivered no Reset is INCONCLUSIVE. Lag that begins while a subscriber is inside poll_next is only reachable across threads: a cross-thread variant (writer thread, each stream on its own park/unpark thread, also under TSan) checks replica == contents at the quiescent Pending after the writer finished and at the end.", "runtime monitoring: history + reference model with lag accounting; cross-thread rounds with a quiescence oracle; TSan", "5/C06"),
  "C07": ("vec", "fault_enumeration", "Every transaction body (closed under prefixes = every abandon point) x every way of ending it (commit, drop, rollback+drop, rollback+more+commit/drop) is executed on the real code, with 0/1/3 subscribers and capacities 1,2,16; contents, handle view, published messages and wakers are compared with the model after every step.", "runtime monitoring: fault (abandon-point) enumeration against a plain-Vec model", "5/C07"),
  "C08": ("vec", "exploration", "Histories end with the drop of the vector and a drain of every stream: pending items first, then None, replica == final contents, further polls stay None, pending wakers woken by the drop; six subscriber situations x capacities x both flavours enumerated, random beyond.", "runtime monitoring: drain-after-drop oracle over executed histories", "5/C08"),
  "C09": ("adp", "exploration", "Adapter engine with taps: at every Pending of the adapter the view rebuilt from initial values + diffs must be the first/last/remaining items of the real vector for the latest announced parameter; checked replica for applicability; end-of-stream compared with the source. Exhaustive d<=2 (quick) / d<=3 (thorough) over all diff kinds, indices, parameters 0..5, three construction forms, both flavours; random beyond.", "runtime monitoring: view oracle at quiescent points over tapped streams", "5/C09"),
